@@ -47,11 +47,11 @@ fn osame(a: Option<&[u8]>, b: Option<&[u8]>) -> bool {
     }
 }
 
-/// expected registry lookups for a cipher list: Some(name) iff listed
-fn expected_suites(ids: &[u16]) -> Result<Vec<Option<&'static str>>, Fail> {
-    static MAP: std::sync::OnceLock<std::collections::HashMap<u16, &'static str>> = std::sync::OnceLock::new();
+/// expected registry lookups for a cipher list: Some(row of the registry text file) iff listed
+fn expected_suites(ids: &[u16]) -> Result<Vec<Option<&'static vmodel::ciphers::Row>>, Fail> {
+    static MAP: std::sync::OnceLock<std::collections::HashMap<u16, &'static vmodel::ciphers::Row>> = std::sync::OnceLock::new();
     let tb = super::c12::tabs()?;
-    let map = MAP.get_or_init(|| tb.file.iter().map(|r| (r.id, r.name.as_str())).collect());
+    let map = MAP.get_or_init(|| tb.file.iter().map(|r| (r.id, r)).collect());
     Ok(ids.iter().map(|id| map.get(id).copied()).collect())
 }
 
@@ -61,9 +61,14 @@ fn got_suites(v: &[Option<&'static TlsCipherSuite>], ids: &[u16], what: &str) ->
     for (i, (g, w)) in v.iter().zip(want.iter()).enumerate() {
         match (g, w) {
             (None, None) => {}
-            (Some(s), Some(n)) => ensure!(s.id.0 == ids[i] && s.name == *n, format!("C15:{}:wrong-entry", what), "{}: position {} (id {:#06x}) maps to {:#06x} {}", what, i, ids[i], s.id.0, s.name),
+            (Some(s), Some(r)) => {
+                // "its registry entry": the whole entry (all ten columns of the registry row for that id), not only id and name
+                if let Some((col, d)) = super::c12::suite_differs(s, r) {
+                    return fail(format!("C15:{}:wrong-entry:{}", what, col), format!("{}: position {} (id {:#06x}) maps to an entry that is not the registry entry of that id: {}", what, i, ids[i], d));
+                }
+            }
             (Some(s), None) => return fail(format!("C15:{}:phantom", what), format!("{}: unlisted id {:#06x} at position {} maps to {}", what, ids[i], i, s.name)),
-            (None, Some(n)) => return fail(format!("C15:{}:missing", what), format!("{}: id {:#06x} ({}) at position {} maps to None", what, ids[i], n, i)),
+            (None, Some(r)) => return fail(format!("C15:{}:missing", what), format!("{}: id {:#06x} ({}) at position {} maps to None", what, ids[i], r.name, i)),
         }
     }
     Ok(())
